@@ -91,7 +91,7 @@ Why(r) ==
 
 Init == l = 1
 Next == /\ l <= Len(Rec)
-        /\ LET w == Why(Rec[l]) IN IF w = "" THEN TRUE ELSE PrintT(<<"MISMATCH", l, w>>)
+        /\ LET w == Why(Rec[l]) IN IF w = "" THEN TRUE ELSE PrintT("MISMATCH|" \o ToString(l) \o "|" \o w)
         /\ l' = l + 1
 Spec == Init /\ [][Next]_vars
 Consumed == TLCGet("stats").diameter = Len(Rec) + 1
